@@ -751,10 +751,14 @@ def _zreal(a):
     _abort("kernel argument %r" % (a,))
 
 
-def uf_real(name, args, semantics=None):
+def uf_real(name, args, semantics=None, symmetric=False):
     """application of the uninterpreted numeric kernel `name` to cells -> SymReal.
-    `semantics`: python function(list of floats) -> float used when a model is evaluated."""
+    `semantics`: python function(list of floats) -> float used when a model is evaluated.
+    `symmetric`: the kernel does not depend on the order of its operands (median, var, ...): the
+    operands are put into a canonical order so that permuted fibres give the same term."""
     zs = [_zreal(a) for a in args]
+    if symmetric:
+        zs.sort(key=lambda z: z.sexpr())
     key = "%s_%d" % (name, len(zs))
     f = _UF.get(key)
     if f is None:
